@@ -531,20 +531,14 @@ theorem map_obsOf_fst (l : List Emit) : (l.map obsOf).map Prod.fst = l.map (·.e
 
 /-- The look-ahead of the repaired `is_implicit_record` on the printed body of an attribute. -/
 theorem implicit_printed {n : Nat} (ih : RH n) (nm : List Char) (v : Value) (hvs : v.size + 1 ≤ n) (hvw : v.wf = true)
-    (hve : v ≠ .extant) (hnf : ∀ f, v ≠ .float f) (st : Style) (i : Nat) (more : List Char) (hm : more ≠ []) :
+    (hve : v ≠ .extant) (st : Style) (i : Nat) (more : List Char) :
     isImplicitRecord (printItems st i i true false (bodyItems v) ++ ')' :: more) = implicitBody v := by
   have hbs := bodyItems_size v
   have hrun := ih.items (bodyItems v) (by omega) (bodyItems_wf hvw) st .ab i i false [.init] [.afterAttr] more false [] []
     White.nil (Or.inl Spaces.nil) rfl (fun _ => bodyItems_notSoleExtant hve) (by intro h; cases h)
   simp only [Bool.false_eq_true, ↓reduceIte, List.nil_append, Kind.close] at hrun
   obtain ⟨k, hk, hr⟩ := hrun
-  have hsz := size_le_PA' st i v hvw
-  rw [printA_body' st i hvw hve hnf] at hsz
-  simp only [List.length_cons, List.length_append, List.length_nil] at hsz
-  have hml : 1 ≤ more.length := by
-    cases more with
-    | nil => exact absurd rfl hm
-    | cons _ _ => simp
+  have hsz := (size_le_I' st i i false (bodyItems v) (bodyItems_wf hvw)).1
   have hF : k ≤ 12 * (printItems st i i true false (bodyItems v) ++ ')' :: more).length + 8 := by
     simp only [List.length_append, List.length_cons]
     omega
@@ -613,12 +607,13 @@ theorem popAfterAttr_base (primary : Bool) (cur0 : PS) (B : List PS) :
 /-- One printed attribute, in any of the three contexts an `@` can stand in. -/
 theorem attr_one {n : Nat} (ih : RH n) (nm : List Char) (v : Value) (hvs : v.size + 1 ≤ n) (hvw : v.wf = true)
     (st : Style) (i : Nat) (primary : Bool) (cur0 : PS) (B : List PS) (hctx : AttrCtx primary cur0 B)
-    (more : List Char) (hm : more ≠ []) (hmore : ∀ x ∈ more.head?, isIdentChar x = false ∧ x ≠ '(') :
+    (more : List Char) (hmore : v = .extant → more ≠ [] ∧ ∀ x ∈ more.head?, isIdentChar x = false ∧ x ≠ '(') :
     Run (cur0 :: B) ('@' :: (attrName nm ++ (printA st i v ++ more)))
       ((.startAttr nm, implicitBody v) :: (obsB v ++ [(.endAttr, false)]))
       (.afterAttr :: attrBase primary cur0 B) more (4 * v.size + 8) := by
   by_cases hve : v = .extant
   · subst hve
+    obtain ⟨hm, hmore⟩ := hmore rfl
     cases more with
     | nil => exact absurd rfl hm
     | cons x xs =>
@@ -677,7 +672,7 @@ theorem attr_one {n : Nat} (ih : RH n) (nm : List Char) (v : Value) (hvs : v.siz
         (if primary then .init :: cur0 :: B else cur0 :: B) _ more false [] [] White.nil (Or.inl Spaces.nil)
         (by simp only [endStack]; rw [popAfterAttr_base]) (fun _ => bodyItems_notSoleExtant hve) (by intro h; cases h)
       simp only [Bool.false_eq_true, ↓reduceIte, List.nil_append, Kind.close] at hit
-      have hdec := implicit_printed ih nm v hvs hvw hve hnf st i more hm
+      have hdec := implicit_printed ih nm v hvs hvw hve st i more
       refine (((Run.of_step hstep).trans hit).mono (by omega)).cast rfl ?_
       simp [obsEmits, emits, obsOf, hdec, obsB_bodyItems v hve, kindEndEvent]
 
@@ -719,7 +714,7 @@ theorem attrs_step {n : Nat} (ih : RH n) (r : Attrs) (hs : r.size ≤ n + 1) (hw
     rw [printAttrs_cons']
     simp only [List.cons_append, List.append_assoc]
     obtain ⟨hm1, hm2⟩ := more_head st i r2 hfol ht
-    have h1 := attr_one ih n2 v2 (by omega) hw.1 st i false .afterAttr B (attrCtx_afterAttr B) _ hm1 hm2
+    have h1 := attr_one ih n2 v2 (by omega) hw.1 st i false .afterAttr B (attrCtx_afterAttr B) _ (fun _ => ⟨hm1, hm2⟩)
     have h2 := ih.attrs r2 (by omega) hw.2 st i B tail hfol ht
     simp only [attrBase, Bool.false_eq_true, ↓reduceIte] at h1
     refine ((h1.trans h2).mono (by simp [Attrs.size]; omega)).cast rfl ?_
@@ -828,7 +823,7 @@ theorem elem_step {n : Nat} (ih : RH n) (v : Value) (hs : v.size ≤ n + 1) (hw 
             (obsA (.cons nm w r) ++ Ob) (afterOf cur :: below) rest' (4 * (1 + (2 + w.size + r.size) + its.size)) := by
         intro tail rest' Ob Kb hfol htne hbody hKb
         obtain ⟨hm1, hm2⟩ := more_head st i r hfol htne
-        have h1 := attr_one ih nm w (by omega) haw.1 st i true cur below (attrCtx_item hcur below) _ hm1 hm2
+        have h1 := attr_one ih nm w (by omega) haw.1 st i true cur below (attrCtx_item hcur below) _ (fun _ => ⟨hm1, hm2⟩)
         have h2 := ih.attrs r (by omega) haw.2 st i (cur :: below) tail hfol htne
         simp only [attrBase, ↓reduceIte] at h1
         refine (((h1.trans h2).trans hbody).mono (by omega)).cast rfl ?_
@@ -902,5 +897,49 @@ theorem elem_step {n : Nat} (ih : RH n) (v : Value) (hs : v.size ≤ n + 1) (hw 
           have := key _ rest _ _ hfol (by cases st <;> simp [pad]) (hb.cast (by simp) rfl) (by omega)
           refine this.cast (by simp) ?_
           simp [obsV, obsEmits, emits, obsOf, kindEndEvent]
+
+end SwimVerif.ReconEq
+
+namespace SwimVerif.ReconEq
+open SwimVerif.Recon
+
+theorem rh_all : ∀ n, RH n
+  | 0 => {
+      elem := by
+        intro v hs; have : 1 ≤ v.size := by cases v <;> simp [Value.size] <;> omega
+        omega
+      items := by
+        intro its hs hw st k j i br below S' rest req w e hww he hS h1 h2
+        cases its with
+        | nil =>
+          cases req with
+          | true => exact absurd rfl (h2 rfl)
+          | false =>
+            simp only [printItems, List.nil_append, obsI]
+            rw [← List.append_assoc]
+            have hwe : White (w ++ e) := by
+              intro c hc
+              rcases List.mem_append.mp hc with hc | hc
+              · exact hww c hc
+              · exact he.white c hc
+            have := run_close_start k false below hS hwe rest
+            simp only [Bool.false_eq_true, ↓reduceIte, plain, List.map_cons, List.map_nil] at this ⊢
+            exact this.mono (by omega)
+        | val v r => simp [Items.size] at hs <;> omega
+        | slot a b c => simp [Items.size] at hs <;> omega
+      attrs := by
+        intro r hs hw st i B tail hfol ht
+        cases r with
+        | nil =>
+          simp only [Attrs.isEmpty, ↓reduceIte, List.nil_append, obsA]
+          exact (Run.refl _ _).mono (by omega)
+        | cons n2 v2 r2 => simp [Attrs.size] at hs <;> omega }
+  | n + 1 =>
+    have ih := rh_all n
+    { elem := fun v hs hw hne st i cur below rest hcur hd hrne hre =>
+        elem_step ih v hs hw hne st i cur below rest hcur hd hrne hre
+      items := fun its hs hw st k j i br below S' rest req w e hww he hS h1 h2 =>
+        items_step ih its hs hw st k j i br below S' rest req w e hww he hS h1 h2
+      attrs := fun r hs hw st i B tail hfol ht => attrs_step ih r hs hw st i B tail hfol ht }
 
 end SwimVerif.ReconEq
